@@ -330,6 +330,11 @@ func (ss *sess) walk(wn int, sites []site, withHooks bool, withExpiry bool) bool
 		r := rng.Float64()
 		ok := true
 		switch {
+		case withHooks && i == steps/4:
+			// the endpoint answers 503 once: only the 2xx-answered retry counts as the delivery
+			ss.ep.Script(fs[0].path, notif.Fail5xx)
+			ss.ctx.Count("webhook_5xx_injected", 1)
+			ok = ss.doSet(fs, id, cand[rng.Intn(len(cand))], map[string]float64{"speed": 15}, 0, "")
 		case withExpiry && i == steps/2:
 			ok = ss.doExpiry(fs, "a9", cand[rng.Intn(len(cand))], map[string]float64{"speed": 15})
 		case o == nil || r < 0.66:
@@ -392,7 +397,7 @@ func Run(ctx *core.Ctx) {
 	dsets := detectSets()
 	vs := variants()
 	triEvery := ctx.Pick(10, 1)
-	nWalks := ctx.Pick(36, 300)
+	nWalks := ctx.Pick(36, 1200)
 
 	var wg sync.WaitGroup
 	var mu sync.Mutex
@@ -406,6 +411,10 @@ func Run(ctx *core.Ctx) {
 					list = append(list, scenario{shape: sh, detect: d, v: v})
 				}
 			}
+		}
+		// thorough: the complete cross product twice (other sites, positions, name reuse order)
+		if ctx.Thorough() {
+			list = append(list, list...)
 		}
 		prng := ctx.SubRng(int64(50 + pi))
 		prng.Shuffle(len(list), func(i, j int) { list[i], list[j] = list[j], list[i] })
@@ -460,6 +469,5 @@ func Run(ctx *core.Ctx) {
 	ctx.Set("matrix_exhaustive", done == planned)
 	ctx.Set("detect_sets", len(dsets))
 	ctx.Set("variants_match_where_commands", len(vs))
-	_ = notif.Arrived
 	ctx.Finish()
 }
